@@ -157,7 +157,8 @@ Record sst := mksst {
   s_tok : list (nat * Z);          (* conn and start time of every done func *)
   s_samples : list (list Z);       (* observed latencies per conn *)
   s_fail : list Z;                 (* per conn: failing completions with td > 0 since its last acceptable completion *)
-  s_lastc : list Z                 (* per conn: time of its last completion (0 = never), as p2c keeps it *)
+  s_lastc : list Z;                (* per conn: time of its last completion (0 = never), as p2c keeps it *)
+  s_lastp : list Z                 (* per conn: time of the last Pick that returned it (0 = never) *)
 }.
 
 Definition upd {A} (i : nat) (f : A -> A) (l : list A) : list A :=
@@ -195,7 +196,8 @@ Fixpoint first_healthy_pair (d : list (list Z)) (fuel : nat) (ps : list (Z * Z))
   | _, _ => None
   end.
 
-Definition stale_obs (t : sst) (i : nat) : bool := s_now t - c_pick (row_of (s_prev t) i) >? 1000000000.
+(* not returned by any Pick for more than a second, judged from the observed picks (not from p2c's own stamps) *)
+Definition stale_obs (t : sst) (i : nat) : bool := s_now t - nth i (s_lastp t) 0 >? 1000000000.
 
 Definition pick_clauses (n : nat) (order : list nat) (t : sst) (draws : list Z) (o : xobs) : bool :=
   match n with
@@ -235,7 +237,7 @@ Fixpoint spec_steps (n : nat) (order : list nat) (t : sst) (steps : list (xop * 
           let i := Z.to_nat (o_idx o) in
           let dump := apply_delta (s_prev t) (o_conns o) in
           let t' := mksst (s_now t) dump (s_L t ++ [mkentry i 0]) (s_tok t ++ [(i, s_now t)])
-                          (s_samples t) (s_fail t) (s_lastc t) in
+                          (s_samples t) (s_fail t) (s_lastc t) (upd i (fun _ => s_now t) (s_lastp t)) in
           dump_clauses n t' dump && spec_steps n order t' r
       end
   | (XDone k code, o) :: r =>
@@ -250,17 +252,17 @@ Fixpoint spec_steps (n : nat) (order : list nat) (t : sst) (steps : list (xop * 
                           (upd k (fun e => mkentry (e_conn e) (e_calls e + 1)) (s_L t)) (s_tok t)
                           (upd i (fun l => sample :: l) (s_samples t))
                           (upd i (fun f => if failed then (if td >? 0 then f + 1 else f) else 0) (s_fail t))
-                          (upd i (fun _ => s_now t) (s_lastc t)) in
+                          (upd i (fun _ => s_now t) (s_lastc t)) (s_lastp t) in
           done_clauses t i code dump && dump_clauses n t' dump && spec_steps n order t' r
       end
   | (XAdv dt, o) :: r =>
       let dump := apply_delta (s_prev t) (o_conns o) in
-      let t' := mksst (s_now t + dt) dump (s_L t) (s_tok t) (s_samples t) (s_fail t) (s_lastc t) in
+      let t' := mksst (s_now t + dt) dump (s_L t) (s_tok t) (s_samples t) (s_fail t) (s_lastc t) (s_lastp t) in
       dump_clauses n t' dump && spec_steps n order t' r
   end.
 
 Definition spec_ok (c : case) : bool :=
   let n := c_n c in
   spec_steps n (c_order c)
-    (mksst (c_start c) (repeat init_row n) [] [] (repeat [] n) (repeat 0 n) (repeat 0 n))
+    (mksst (c_start c) (repeat init_row n) [] [] (repeat [] n) (repeat 0 n) (repeat 0 n) (repeat 0 n))
     (c_steps c).
